@@ -54,6 +54,15 @@ def gen_cases(tier, seed):
                    "entry": name, "same_seed": True, "env": pipeline.gen_env(rng, "fault_free", 3, same_seed=True)}
             n += 1
     # (b) generated programs of every feature area
+    # programs embedded in the repository's own test-suite
+    for (name, tfiles, tentry) in pipeline.test_programs():
+        for r in range(2 if quick else 6):
+            rng = Rng(derive(seed, PROP, "testsrc", name, r))
+            batch = ["fault_free", "benign", "benign", "hard"][r % 4]
+            same = r % 2 == 0
+            yield {"prop": PROP, "id": "t%d" % n, "batch": batch, "kind": "testsrc", "name": name, "qualify": True,
+                   "same_seed": same, "env": pipeline.gen_env(rng, batch, 3, same_seed=same)}
+            n += 1
     try:
         import gens
     except ImportError:
@@ -87,7 +96,7 @@ def run_case(case):
                 st["fired"]["write:torn-by-killed-compile"] = st["fired"].get("write:torn-by-killed-compile", 0) + 1
     st["hash_seeds"] = [pl["seed"] for pl in env["plans"]]
     desc = case.get("example", "") + "/" + case.get("entry", "") if case["kind"] == "corpus" else \
-        (repr(case["s"]) if case["kind"] == "string" else case["gen"].get("family", "gen"))
+        (repr(case["s"]) if case["kind"] == "string" else (case["name"] if case["kind"] == "testsrc" else case["gen"].get("family", "gen")))
     st["shape"] = core.shape_hash(case["kind"], desc, case.get("raw"), case.get("form"), case.get("gen"),
                                   [[(r["call"], r["pat"], r["act"].split(":")[0]) for r in pl["rules"]] for pl in env["plans"]],
                                   bool(env.get("dirty")), bool(env.get("torn")), [bool(g) for g in env["gc"]])
@@ -143,7 +152,7 @@ def run_case(case):
         return fail("exit-differs", "`run` exit %d but `execute` exit %d" % (r["rc"], e["rc"]))
     if ro != eo:
         unordered = case["kind"] == "gen" and case["gen"].get("unordered")
-        if case["kind"] == "corpus":
+        if case["kind"] in ("corpus", "testsrc"):
             # does the program's output depend on the hash seed (raw map prints)?  Ask `run` again under another seed.
             env2 = copy.deepcopy(env)
             env2["plans"][0] = {"seed": "a5" * 16, "rules": []}
